@@ -180,6 +180,19 @@ def check_ctrl(ctx, rep, tier):
                                         show_out(ctx, om), show_out(ctx, oi), cell_desc(ctx, t, k, m, B.MAP)))
                     else:
                         rep.ob('mode-independence', 1)
+                # holding Ctrl has no effect of its own where it is not being mapped: on every key with mapping disabled,
+                # and on non-letter keys in either mode - as long as it does not change whether AltGr is in effect
+                # (left Alt + Ctrl IS AltGr)
+                if C_ and B.G(m) == B.G(m & ~(B.LC | B.RC)):
+                    for h_ in ((B.IGN,) if letter else (B.IGN, B.MAP)):
+                        o_with, o_without = t.get(k, m, h_), t.get(k, m & ~(B.LC | B.RC), h_)
+                        if o_with != o_without:
+                            rep.ob('ctrl has no effect where not mapped', 1, 0)
+                            rep.finding('C09 layout=%s key=%s %s ctrl-changes-output' % (name, kname, 'letter-mapping-disabled' if letter else 'non-letter'),
+                                        'Ctrl must change nothing here, but with Ctrl the key gives %s and without %s; %s' % (
+                                            show_out(ctx, o_with), show_out(ctx, o_without), cell_desc(ctx, t, k, m, h_)))
+                        else:
+                            rep.ob('ctrl has no effect where not mapped', 1)
                 if letter and not alt and C_:
                     o0 = t.get(k, m & ~(B.LC | B.RC), B.IGN)
                     if oi != o0:
@@ -404,7 +417,12 @@ def check_raw(ctx, rep, tier):
     raw52 = [kc[k] for k in K['characterless_52']]
     rep.floor('character-less keys', len(raw52), 52)
     alias = {kc[k]: kc[v] for k, v in K['numpad_alias'].items()}
+    newkeys = [n for n in ctx.keycodes if n not in K.get('keycodes_124', ctx.keycodes)]
     for name, t in sorted(tabs.items()):
+        for n in newkeys:
+            if any(t.get(kc[n], m, h) < RAW_BASE for m in (B.NUM, B.NUM | B.LS) for h in (B.MAP, B.IGN)):
+                rep.note('key %s was added after the reference was frozen and types a character on %s; whether it is a '
+                         'character key or a media/system key cannot be decided from the frozen key classes (not judged)' % (n, name))
         for k in range(t.nk):
             kname = ctx.keycodes[k]
             must_raw = k in raw52
